@@ -514,7 +514,7 @@ func (r *Runtime) Submit(operation *runtime.ClientOperation) (interface{}, error
 
 	mt, _, err := mime.ParseMediaType(ct)
 	if err != nil {
-		return nil, fmt.Errorf("parse content type: %s", err)
+		return nil, fmt.Errorf("parse content type %q: %s", ct, err)
 	}
 
 	cons, ok := r.Consumers[mt]
